@@ -15,6 +15,8 @@ pub struct PSpec {
     /// inputs computed by the python side: re-cased identifiers, prefix+name, spellings of
     /// other enums, property-specific probes.  (class label, string)
     pub extra: &'static [(&'static str, &'static str)],
+    /// the enum deliberately contains variants that can claim the same input; such inputs are not judged
+    pub overlap: bool,
 }
 
 pub const CLASSES: &[&str] = &[
